@@ -5,11 +5,18 @@ Tie: exact comparison of approx_mcb_sva_signed with the extracted ApproxModel (s
 under the recovered scan order and the recovered oracles of the spanner graph; for the tree-based entry points exact
 comparison of translation, dropped-edge cycles and returned value with the exact phase's answer supplied; parmcb::dijkstra
 directly; every answer judged (count, caller's edge ids, simple cycles, GF(2)-independent, returned value = total weight
-under the caller's weights) independently and by the verified checker mcbcheck."""
+under the caller's weights) independently and by the verified checker mcbcheck.
+Extension: Properties_C05_trees.v (premise-free for the tree-based entry points: exact phase = an ACCEPTED run of mcb_sva_fvs_trees on
+the spanner; tie: the exact phase's answer recovered from the run is replayed through the extracted acceptance model on the spanner),
+Properties_C03_approx.v / Properties_C03_approx_trees.v (the TBB dropped-edge builder modelled exactly: ApproxParModel.approx_run_tbb;
+tie: harness/c05_tbb.cpp = unchanged headers on the controllable TBB shim under a bit-stream schedule and explicit, independent
+insertion orders of the two concurrent_vectors; emitted cycles in emission order, returned value and schedule bits consumed must agree
+exactly with the extracted model; TBB and sequential entry points must return the same value and the same multiset of dropped-edge
+cycles)."""
 import lib, approx_common
 
 PID = "C05"
-THEOREMS = ["Properties_C05.v"]
+THEOREMS = ["Properties_C05.v", "Properties_C05_trees.v", "Properties_C03_approx.v", "Properties_C03_approx_trees.v"]
 
 
 def check(tier, seed):
@@ -17,18 +24,27 @@ def check(tier, seed):
     c.rule = ("(entry point in {approx signed, fvs_trees, iso_trees}) x (double|int weights) x k in {0,1,2,3,5,50} x graph: families whose (2k-1)-spanner keeps cycles "
               "(long cycles, grids, Petersen, Heawood, Moebius-Kantor, theta, cycles with chords, figure-eights, hypercube) and the structured/random families of C01, "
               "weights unit/ties/wide/pow2; plus direct parmcb::dijkstra calls; distinct by md5; non-trivial = k >= 1 and cycle space dimension >= 1 "
-              "(histogram: spanner kept everything / mixed / forest), or a dijkstra call reaching another vertex")
+              "(histogram: spanner kept everything / mixed / forest), or a dijkstra call reaching another vertex; "
+              "TBB part: (approx signed_tbb, fvs_trees_tbb, iso_trees_tbb) x (double|int) x k in {0,1,2,3,5} x (dense graphs with many dropped edges, trees = none dropped, "
+              "short cycles = exactly one dropped, girth families) x schedule bit stream (unsplit, all forks right-first / left-first, no fork, random with many forks) "
+              "x insertion orders of `cycles` / `cycles_weights` (none, equal, different, invalid) x insertion order of the exact phase's supports")
     c.step_prove()
     approx_common.run(c, tier, "basis")
+    approx_common.run_tbb(c, tier, "basis")
     return c.finish(
         assumptions=["std::sort's order among equal weights, the BFS root order and the pointer order of the SPANNER's edge descriptors are recovered from the run "
                      "(PARMCB_VERIF accessors on an object constructed exactly as the entry point does) and fed to the model as oracles",
                      "boost::d_ary_heap_indirect<.,4,.> behaves as HeapModel.v; adjacency_list<vecS,vecS> enumerates out-edges in insertion order",
                      "double weights are integer multiples of a power of two, sums below 2^53 (exact domain); closed_plus never saturates",
-                     "theorem premise: the exact phase returns a cycle basis of the spanner (C01; for the signed variant reduced to the search specification)"],
+                     "theorem premise: the exact phase returns a cycle basis of the spanner (C01; discharged for the signed variant, for the tree-based variants "
+                     "(accepted runs of mcb_sva_fvs_trees on the spanner) and for the three TBB variants)",
+                     "TBB part: schedule semantics of tbb::parallel_for / parallel_reduce / concurrent_vector::push_back as SchedModel.v = harness/shim/tbb (read off oneTBB 2021.8); "
+                     "cycles_weights is a local explicit specialisation tbb::concurrent_vector<double|int> in harness/c05_tbb.cpp (same behaviour as the shim's container, own insertion order)"],
         explanation="The theorems hold for every simple graph, k, scan order and oracle; this run ties ApproxModel to the code (exact cycle-by-cycle agreement) "
                     "and judges every emitted family of the public entry points after they returned: m-n+c cycles, ids of the caller's graph (a leaked internal "
-                    "descriptor prints as ?), simple, independent, returned value = sum of the caller's weights.")
+                    "descriptor prints as ?), simple, independent, returned value = sum of the caller's weights. "
+                    "The three *_tbb entry points run under the controllable TBB shim: exact agreement with the extracted approx_run_tbb (cycles in emission order, value, bits consumed), "
+                    "same value / multiset of dropped-edge cycles as the sequential entry points, every answer judged.")
 
 
 def replay(path):
